@@ -357,7 +357,7 @@ impl Scenario for ArithProg {
             let s1 = rng.below(NREG as u64) as u8;
             let s2 = rng.below(NREG as u64) as u8;
             let srcs = s1 | (s2 << 3);
-            match rng.below(26) {
+            match rng.below(27) {
                 0 | 1 | 2 => {
                     let k = if rng.chance(1, 2) { A_FE_ADD } else { A_FE_SUB };
                     // operand discipline: both inputs reduced
@@ -411,7 +411,8 @@ impl Scenario for ArithProg {
                     t.ops.push(Op::new(dst, A_FE_LOAD).arg(rng.below(20)).seed(rng.data_seed()));
                     depth[dst as usize] = 0;
                 }
-                19 => t.ops.push(Op::new(0, A_SC_REDUCE).arg(rng.below(16)).seed(rng.data_seed())),
+                19 => t.ops.push(Op::new(0, A_SC_REDUCE).arg(rng.below(18)).seed(rng.data_seed())),
+                25 => t.ops.push(Op::new(0, A_SC_REDUCE).arg(16 + rng.below(2)).seed(rng.data_seed())),
                 20 => t.ops.push(Op::new(0, A_SC_CANONICAL).arg(rng.below(24)).seed(rng.data_seed())),
                 21 => t.ops.push(Op::new(0, A_SC_MULADD).arg(rng.below(1 << 12)).seed(rng.data_seed())),
                 22 => t.ops.push(Op::new(0, A_GE_BASE).arg(rng.below(12)).seed(rng.data_seed())),
@@ -440,7 +441,7 @@ impl Scenario for ArithProg {
         let mut depth = [0u8; NREG];
         let mut wide_of = |sel: u64, seed: u64| -> [u8; 64] {
             let mut w = [0u8; 64];
-            match sel % 16 {
+            match sel % 18 {
                 0 => {}
                 1 => w[..32].copy_from_slice(&crate::model::big::L),
                 2 => {
@@ -461,7 +462,7 @@ impl Scenario for ArithProg {
                     // boundary family: (a multiple of L) + 2^k - e, also with a random high half
                     let b = crate::model::big::boundary_scalar(seed);
                     w[..32].copy_from_slice(&b);
-                    if sel % 16 == 7 {
+                    if sel % 18 == 7 {
                         w[32..].copy_from_slice(&data((seed >> 3) | 16, 32));
                     }
                 }
@@ -517,6 +518,31 @@ impl Scenario for ArithProg {
                     for x in w[a..b].iter_mut() {
                         *x = 0xff;
                     }
+                }
+                16 | 17 => {
+                    // q*L + r where q*L has a saturated window [p, p+w) (all ones for 16, all zeros for 17) at any bit
+                    // position and for the limb widths in use (8, 16, 21, 28, 32, 51, 56, 64) or a random one: the
+                    // borrow / carry chains of a reduction are only stressed when the subtracted multiple of L has
+                    // such a limb (about 2^-56 per random input for 56-bit limbs)
+                    const WIDTHS: [usize; 8] = [8, 16, 21, 28, 32, 51, 56, 64];
+                    let width = if seed & 8 == 0 { WIDTHS[((seed >> 4) % 8) as usize] } else { 1 + ((seed >> 4) % 64) as usize };
+                    // windows aligned to a multiple of their own width (where limbs of that width sit) or anywhere
+                    let pos = if seed & 4 == 0 { width * (((seed >> 12) as usize) % (256 / width)) } else { ((seed >> 12) % 250) as usize };
+                    let mut filler = [0u8; 32];
+                    filler.copy_from_slice(&data((seed >> 20) | 16, 32));
+                    let mut r = [0u8; 32];
+                    match (seed >> 1) & 3 {
+                        0 => {}
+                        1 => {
+                            r.copy_from_slice(&crate::model::big::L);
+                            r[0] -= 1;
+                        }
+                        _ => {
+                            r.copy_from_slice(&data((seed >> 24) | 16, 32));
+                            r[31] &= 0x0f;
+                        }
+                    }
+                    w = crate::model::big::wide_with_saturated_window(pos, width, sel % 18 == 16, &filler, &r);
                 }
                 15 => {
                     // random value with a run of zero bytes [a, b)
